@@ -195,6 +195,25 @@ def main():
             ("isolated logins do not see each other's data", outcome(i2, "select * from c17_iso")[:2] == ("ProgrammingError", 2003)),
             ("shared login does not see isolated data", outcome(s1, "select * from c17_iso")[:2] == ("ProgrammingError", 2003)),
         ]
+        # the same statement text repeated by one login while ANOTHER login changes the table's types in between: values,
+        # description and rowcount must follow, exactly as for two in-process connections
+        s2.cursor().execute("create or replace table c17_chg (amount number(10,2), label varchar)")
+        s2.cursor().execute("insert into c17_chg values (123.45, 'a')")
+        q_chg = "SELECT amount, label FROM c17_chg"
+        before = outcome(s1, q_chg)
+        s2.cursor().execute("create or replace table c17_chg (amount number(10,4), label int)")
+        s2.cursor().execute("insert into c17_chg values (1.2345, 7)")
+        after = outcome(s1, q_chg)
+        checks.append((f"`{q_chg}` repeated by one login after another login replaced the table: got {after}, before the change {before}",
+                       before[:2] == ("ok", [("Decimal:123.45", "str:a")]) and after[:2] == ("ok", [("Decimal:1.2345", "int:7")]) and after[3] is not None
+                       and [(d[0], d[3]) for d in after[3]] == [("AMOUNT", 4), ("LABEL", 0)]))
+        s2.cursor().execute("alter table c17_chg add column extra float")
+        after2 = outcome(s1, "SELECT * FROM c17_chg")
+        after3 = outcome(s1, "SELECT * FROM c17_chg")
+        s2.cursor().execute("alter table c17_chg drop column label")
+        after4 = outcome(s1, "SELECT * FROM c17_chg")
+        checks.append((f"`SELECT * FROM c17_chg` repeated across ALTER TABLE by another login: {after2[:2]} / {after4[:2]}",
+                       after2[0] == "ok" and after2 == after3 and len(after2[1][0]) == 3 and after4[0] == "ok" and len(after4[1][0]) == 2 and [d[0] for d in after4[3]] == ["AMOUNT", "EXTRA"]))
         s1.cursor().execute("create schema if not exists c17_other")
         try:
             s1.cursor().execute("use schema c17_other")   # takes effect, then answers 500 (finding C17-description-dependent-500)
